@@ -299,3 +299,8 @@ func init() {
 func init() {
 	prop("C15", "C15-R7")
 }
+
+func init() {
+	prop("C20", "C20-R5")
+	prop("C01", "C20-R5")
+}
